@@ -19,6 +19,10 @@ pub enum WClass {
     Generic,
     /// k/4, k in 0..=6: contains zero weights
     ZeroContaining,
+    /// decimal fractions whose float sums are one or two ulps apart (0.1 + 0.2 vs 0.3)
+    UlpsDecimal,
+    /// the same at a tiny common magnitude (1e-20)
+    UlpsTiny,
 }
 
 impl WClass {
@@ -29,6 +33,8 @@ impl WClass {
             WClass::ExactWide => rng.range(1, 80) as f64 / 4.0,
             WClass::Generic => 0.1 + rng.f64() * 9.9,
             WClass::ZeroContaining => rng.range(0, 6) as f64 / 4.0,
+            WClass::UlpsDecimal => *rng.pick(&[0.1, 0.2, 0.3, 0.1 + 0.2, 0.4, 0.05, 0.25, 0.7, 0.6, 0.15, 0.35]),
+            WClass::UlpsTiny => *rng.pick(&[1e-20, 2e-20, 3e-20, 1e-20 + 2e-20, 4e-20, 0.5e-20, 2.5e-20, 7e-20]),
         }
     }
     pub fn is_exact(&self) -> bool {
@@ -360,6 +366,24 @@ pub fn gen_case(
     }
 }
 
+/// A chain of k diamonds: 2^k shortest paths between its ends (3k+1 nodes).
+pub fn diamond_chain(specs: Specs, k: usize, wclass: WClass, rng: &mut Rng) -> GCase {
+    let n = 3 * k + 1;
+    let names = scrambled_names(n, rng);
+    let mut edges = vec![];
+    let w = if wclass.weighted() { 1.5 } else { f64::NAN };
+    for i in 0..k {
+        let a = 3 * i;
+        let (b, c, e) = (a + 1, a + 2, a + 3);
+        edges.push((a, b, w));
+        edges.push((a, c, w));
+        edges.push((b, e, w));
+        edges.push((c, e, w));
+    }
+    rng.shuffle(&mut edges);
+    GCase { specs, names, edges, family: "diamond_chain", wclass }
+}
+
 pub fn kinds8() -> Vec<Specs> {
     let mut v = vec![];
     for d in [true, false] {
@@ -372,8 +396,111 @@ pub fn kinds8() -> Vec<Specs> {
     v
 }
 
-/// Random case with everything drawn from the rng.
+/// Shapes sitting on size / count / magnitude boundaries: node counts around the parallel
+/// threshold (20/21) and powers of two, hubs with 63..129 neighbours, 31..34 parallel edges on one
+/// pair, weights of extreme magnitude, a weight equal to the current maximum.
+pub fn boundary_case(rng: &mut Rng, nmin: usize, nmax: usize, kinds: &[Specs], wclasses: &[WClass]) -> GCase {
+    let specs = *rng.pick(kinds);
+    let wclass = *rng.pick(wclasses);
+    let mut variant = rng.below(5);
+    if nmax < 22 && variant < 2 {
+        variant = 2 + rng.below(3);
+    }
+    let mut case = match variant {
+        0 => {
+            // node counts around thresholds
+            let cands: Vec<usize> = [19usize, 20, 21, 22, 23, 31, 32, 33, 63, 64, 65, 127, 128, 129].iter().copied().filter(|n| *n >= nmin && *n <= nmax).collect();
+            let n = if cands.is_empty() { nmax } else { *rng.pick(&cands) };
+            let fam: &'static str = *rng.pick(&["gnp_sparse", "cycle", "tree", "components", "nested_scc", "path"]);
+            let mut c = gen_case(specs, fam, n, wclass, &GenOpts { self_loops: rng.coin(), parallel: rng.coin(), shuffle_edges: true }, rng);
+            c.family = "boundary-node-count";
+            c
+        }
+        1 => {
+            // a hub with a neighbour count around 64 / 128
+            let deg = *rng.pick(&[63usize, 64, 65, 127, 128, 129]);
+            let deg = deg.min(nmax.saturating_sub(1)).max(1);
+            let n = deg + 1 + rng.below(3).min(nmax - deg - 1);
+            let names = scrambled_names(n, rng);
+            let hub = rng.below(n);
+            let fan_in = rng.chance(1, 3); // every arc points at the hub
+            let mut edges = vec![];
+            let mut k = 0;
+            for v in 0..n {
+                if v != hub && k < deg {
+                    if specs.directed && (fan_in || rng.coin()) {
+                        edges.push((v, hub, wclass.draw(rng)));
+                    } else {
+                        edges.push((hub, v, wclass.draw(rng)));
+                    }
+                    k += 1;
+                }
+            }
+            for _ in 0..rng.below(6) {
+                let (a, b) = (rng.below(n), rng.below(n));
+                if a != b && !edges.iter().any(|e| (e.0 == a && e.1 == b) || (e.0 == b && e.1 == a)) {
+                    edges.push((a, b, wclass.draw(rng)));
+                }
+            }
+            rng.shuffle(&mut edges);
+            GCase { specs, names, edges, family: "boundary-hub", wclass }
+        }
+        2 => {
+            // many parallel edges on one pair (multi kinds), otherwise many re-additions of one pair
+            let n = rng.range(2.max(nmin), 6.max(nmin).min(nmax.max(2)));
+            let mut c = gen_case(specs, "gnp_mid", n, wclass, &GenOpts { self_loops: rng.coin(), parallel: false, shuffle_edges: true }, rng);
+            let (u, v) = (0, n - 1);
+            let cnt = rng.range(31, 34);
+            for _ in 0..cnt {
+                let (a, b) = if !specs.directed && rng.coin() { (v, u) } else { (u, v) };
+                c.edges.push((a, b, wclass.draw(rng)));
+            }
+            c.family = "boundary-many-parallel";
+            c
+        }
+        3 => {
+            // extreme magnitudes (only meaningful for weighted classes)
+            let n = rng.range(2.max(nmin), 8.max(nmin).min(nmax.max(2)));
+            let fam: &'static str = *rng.pick(&["gnp_mid", "cycle", "complete", "path"]);
+            let mut c = gen_case(specs, fam, n, wclass, &GenOpts { self_loops: rng.coin(), parallel: rng.coin(), shuffle_edges: true }, rng);
+            if wclass.weighted() {
+                // random doubles (real ties have probability 0) of an extreme common magnitude;
+                // squares and products of three stay finite
+                let scale = *rng.pick(&[1e-140, 1e-60, 1e60, 1e140]);
+                for e in c.edges.iter_mut() {
+                    e.2 = (0.1 + rng.f64() * 9.9) * scale;
+                }
+                c.wclass = WClass::Generic;
+            }
+            c.family = "boundary-extreme-weights";
+            c
+        }
+        _ => {
+            // several edges carrying exactly the maximum weight, and equal sums by different routes
+            let n = rng.range(3.max(nmin), 9.max(nmin).min(nmax.max(3)));
+            let fam: &'static str = *rng.pick(&["complete", "grid", "ladder", "cycle", "bipartite"]);
+            let mut c = gen_case(specs, fam, n, wclass, &GenOpts { self_loops: false, parallel: rng.coin(), shuffle_edges: true }, rng);
+            if wclass.weighted() {
+                let vals = [1.0, 2.0];
+                for e in c.edges.iter_mut() {
+                    e.2 = *rng.pick(&vals);
+                }
+            }
+            c.family = "boundary-equal-weights";
+            c
+        }
+    };
+    if case.names.len() < nmin || case.names.len() > nmax {
+        case = gen_case(specs, "gnp_mid", nmin.max(1).min(nmax), wclass, &GenOpts { self_loops: false, parallel: false, shuffle_edges: true }, rng);
+    }
+    case
+}
+
+/// Random case with everything drawn from the rng (one case in ten sits on a boundary).
 pub fn random_case(rng: &mut Rng, nmin: usize, nmax: usize, kinds: &[Specs], wclasses: &[WClass]) -> GCase {
+    if nmax >= 2 && rng.chance(1, 10) {
+        return boundary_case(rng, nmin, nmax, kinds, wclasses);
+    }
     let specs = *rng.pick(kinds);
     let family = *rng.pick(FAMILIES);
     let n = rng.range(nmin, nmax);
